@@ -4,7 +4,7 @@
    Wal/CrcTab.v, Wal/Pb.v; it is tied to the Go code by the differential run of ./check C16. *)
 Require Import Base.Bytes Wal.Crc32c Wal.CrcTab Wal.Pb Wal.WalModel Wal.WalSpec Wal.SnapModel.
 Require Import Wal.FrameProofs Wal.CrcProofs Wal.PbProofs Wal.WalProofs Wal.WalRefuted Wal.SnapProofs.
-Require Import Wal.TornProofs Wal.RepairProofs Wal.ReadAllProofs Wal.RoundtripProofs Wal.SnapFlipProofs Wal.FlipReadProofs Wal.DurableProofs Wal.FlipClassProofs Wal.FlipCrcProofs Wal.FlipAllProofs Wal.TruncProofs.
+Require Import Wal.TornProofs Wal.RepairProofs Wal.ReadAllProofs Wal.RoundtripProofs Wal.SnapFlipProofs Wal.FlipReadProofs Wal.DurableProofs Wal.FlipClassProofs Wal.FlipCrcProofs Wal.FlipAllProofs Wal.TruncProofs Wal.SecondLifeProofs.
 Local Open Scope N_scope.
 
 (* ------------------------------------------------------------------ frames *)
@@ -460,6 +460,52 @@ Theorem C16_repair : forall rs_synced rs_unsynced crc0 (lost : N -> bool) kz,
     /\ (snd (repair img) = img \/ snd (repair img) = takeN off img).
 Proof. exact repair_torn_tail. Qed.
 Print Assumptions C16_repair.
+
+(* TWO LIVES.  (1) Open + ReadAll in write mode leaves the tail segment all-zero behind the last
+   valid record: whatever a crash left there (sectors of a torn write that happened to persist
+   beyond lost ones) is cleared before anything is appended. *)
+Theorem C16_open_zeroes_tail : forall si st files rs off c s,
+  decode_files files 0 = (rs, FEnd, off, c) -> interp_all si st rs_init rs = SOk s ->
+  read_all_w si st files = (result_w true s, map_last (zero_tail off) files)
+  /\ forall f, zero_tail off f = firstn (N.to_nat off) f ++ zerosN (blen f - off)
+               /\ all_zero (zerosN (blen f - off)) = true.
+Proof. exact open_zeroes_tail. Qed.
+Print Assumptions C16_open_zeroes_tail.
+
+(* (2) f is the tail segment as found at a restart — ANY bytes — that decodes to the records rs
+   with a clean EOF at off; it is opened for append (zeroed behind off) and the records rs2 are
+   appended.  The next restart reads exactly rs followed by rs2: nothing of what lay behind off
+   can be read again. *)
+Theorem C16_second_life : forall f crc0 rs off c rs2 k,
+  crc0 < lim32 ->
+  decode_whole true crc0 f = (rs, FEnd, off, c) ->
+  Forall raw_ok rs2 -> Forall crc_rec_wf rs2 -> (k = 0 \/ 8 <= k) ->
+  let '(rs2', bs2, c2) := encode_recs c rs2 in
+  decode_whole true crc0 (firstn (N.to_nat off) f ++ bs2 ++ zerosN k)
+  = (rs ++ rs2', FEnd, off + blen bs2, c2).
+Proof. exact second_life. Qed.
+Print Assumptions C16_second_life.
+
+(* (3) C16_second_life_roundtrip: crash image with ANY sector subset lost -> Repair (no-op unless
+   torn) -> open for append -> any further records -> read back = recovered prefix (containing
+   every synced record) ++ the new records, exactly *)
+Theorem C16_second_life_roundtrip : forall rs_synced rs_unsynced crc0 (lost : N -> bool) kz,
+  let head := mkrec crcType 0 None in
+  Forall raw_ok (head :: rs_synced ++ rs_unsynced) -> Forall crc_rec_wf (head :: rs_synced ++ rs_unsynced) ->
+  crc0 < lim32 -> (kz = 0 \/ 8 <= kz) ->
+  let '(rs', bs, _) := encode_recs crc0 ((head :: rs_synced) ++ rs_unsynced) in
+  let synced := blen (snd (fst (encode_recs crc0 (head :: rs_synced)))) in
+  let img := crash_image synced lost (bs ++ zerosN kz) in
+  no_crc_coincidence synced (bs ++ zerosN kz) img 0 crc0 rs' = true ->
+  exists m off c,
+    (S (length rs_synced) <= m <= length rs')%nat
+    /\ fst (repair img) = true
+    /\ forall rs2 k, Forall raw_ok rs2 -> Forall crc_rec_wf rs2 -> (k = 0 \/ 8 <= k) ->
+         let '(rs2', bs2, c2) := encode_recs c rs2 in
+         decode_whole true crc0 (firstn (N.to_nat off) (snd (repair img)) ++ bs2 ++ zerosN k)
+         = (firstn m rs' ++ rs2', FEnd, off + blen bs2, c2).
+Proof. exact second_life_after_crash. Qed.
+Print Assumptions C16_second_life_roundtrip.
 
 (* non-vacuity: a segment head, a metadata record (both synced), then an entry record of 600
    bytes written after the sync; the crash loses sector 1 (bytes 512..1023).  The side condition
